@@ -9,6 +9,7 @@
 -/
 import PvModel.Proofs.FDLocal
 import PvModel.Proofs.Tree
+import PvModel.Proofs.FDExact
 namespace Pv
 open Term State
 
@@ -111,6 +112,26 @@ theorem C19_delayed (st : State) (u v : Term) (σ' : Subst) (e : Ext1)
 theorem C19_rerun_all (n : Nat) (st : State) :
     runConstraintsF ord (n + 1) st = runSnapshot (runConstraintsF ord n) ord st (ord.cs st.store) := rfl
 
+/-! ### chains of several constraints, in arbitrary interleavings -/
+
+/-- CHAINS: any list of `plusz` / `timesz` atoms and equalities (and any FD atoms), in ANY posting order,
+    under any hash-iteration order: the state reached describes exactly the integer solutions of the
+    whole system — a constraint delayed for lack of ground operands is re-run when they become ground, binds
+    its third operand or refutes the system, and nothing is lost or invented on the way. -/
+theorem C19_chains {ord : Order} (ho : OrderOK ord) (n : Nat) (as : List FAtom) (hok : ∀ a ∈ as, a.OK)
+    (st' : State) (h : postAllF ord (State.empty n) as = .ok st') (γ : Subst) :
+    Sem NoI γ st' ↔ ∀ a ∈ as, a.Sat γ := fd_exact_ok ho n as hok st' h γ
+
+theorem C19_chains_fail {ord : Order} (ho : OrderOK ord) (n : Nat) (as : List FAtom) (hok : ∀ a ∈ as, a.OK)
+    (h : postAllF ord (State.empty n) as = .fail) : ¬ ∃ γ, ∀ a ∈ as, a.Sat γ := fd_exact_fail ho n as hok h
+
+/-- posting order and hash order do not matter for the solutions described -/
+theorem C19_order_free {ord ord' : Order} (ho : OrderOK ord) (ho' : OrderOK ord') (n : Nat)
+    (as as' : List FAtom) (hp : as.Perm as') (hok : ∀ a ∈ as, a.OK) (st1 st2 : State)
+    (h1 : postAllF ord (State.empty n) as = .ok st1) (h2 : postAllF ord' (State.empty n) as' = .ok st2) (γ : Subst) :
+    Sem NoI γ st1 ↔ Sem NoI γ st2 := (fd_order_free ho ho' n as as' hp hok).1 st1 st2 h1 h2 γ
+
+
 section Examples
 private def x : Term := .var 0
 private def y : Term := .var 1
@@ -133,6 +154,17 @@ example : outcome (postCst o (State.empty 1) (.timesz (num 0) x (num 0))) = "ok 
 example : outcome (postCst o (State.empty 1) (.timesz (num 2) x (num 5))) = "fail" := by decide
 example : (match postCst o (State.empty 1) (.timesz (num 2) x (num (-6))) with
     | .ok st => st.σ 0 == num (-3) | _ => false) = true := by decide
+/-- non-vacuity of `C19_chains`: a chain x + y = z, z * 2 = w posted BEFORE its operands are known; the
+    later equalities x = 1, w = 10 wake both constraints: y = 4, z = 5 -/
+private def prog19 : List FAtom :=
+  [.cst (.plusz (.var 0) (.var 1) (.var 2)), .cst (.timesz (.var 2) (num 2) (.var 3)),
+   .eq (.var 0) (num 1), .eq (.var 3) (num 10)]
+example : ∀ a ∈ prog19, a.OK := by
+  intro a ha
+  simp only [prog19, List.mem_cons, List.not_mem_nil, or_false] at ha
+  rcases ha with rfl | rfl | rfl | rfl <;> simp [FAtom.OK, Cst.isDistinct]
+example : (match postAllF Order.default (State.empty 4) prog19 with
+    | .ok st => st.store.isEmpty && (st.σ 1 == num 4) && (st.σ 2 == num 5) | _ => false) = true := by decide
 end Examples
 
 end Pv
